@@ -180,6 +180,9 @@ class Shard:
         only when the neutralised case is clean."""
         if not applies:
             return run(self)
+        from . import known as _known
+        if key not in _known._open_keys(self.prop):
+            return run(self)  # not (or no longer) a listed finding: nothing to attribute anything to
         tmp = Shard(self.prop, self.spec)
         r = run(tmp)
         if not tmp.violations:
